@@ -174,7 +174,20 @@ def handle (line : String) : String :=
     | some m, some tr, some metas, some watch, some nwait =>
       let closedOk := kv "closed" obs == some "ok"
       let late := (kv "late" obs).bind String.toNat?
-      let full := elaborate tr
+      -- The LTS models the plain-HTTP arm of the accept loop, where the listener lives until
+      -- the server task has finished.  The HTTPS arm owns its acceptor (and the listener) in the
+      -- loop's scope and drops it as soon as the loop ends, so there a connect can be refused
+      -- while in-flight requests are still being served - allowed by the property (the port must
+      -- be closed once shutdown has finished; `specPort` below judges the whole trace).  For
+      -- HTTPS traces the refused connects seen before the first released waiter are therefore
+      -- not fed to the LTS.
+      let tls : Bool := decide ((plan.splitOn "tls").length > 1)
+      let rec dropEarly : List Event → List Event
+        | [] => []
+        | .waiterReleased i r :: rest => .waiterReleased i r :: rest
+        | .connectRefused :: rest => dropEarly rest
+        | e :: rest => e :: dropEarly rest
+      let full := elaborate (if tls then dropEarly tr else tr)
       let agree := acceptsSettled m full
       let model :=
         match firstRejected m init full 0 with
@@ -201,7 +214,7 @@ def handle (line : String) : String :=
       let hang := kv "closed" obs == some "timeout"
       let cls :=
         if half then s!"{mode}-half-sent" ++ (if hang then "-hang" else "")
-        else s!"{mode}-stay{bucket nStay}-left{bucket nLeft}-idle{bucket (watch.length - nStay)}-w{bucket (nwait - 1)}"
+        else s!"{mode}{if tls then "-tls" else ""}-stay{bucket nStay}-left{bucket nLeft}-idle{bucket (watch.length - nStay)}-w{bucket (nwait - 1)}"
           ++ (if dropctx then "-dropctx" else "") ++ (if noticed && nLeft > 0 then "-noticed" else "")
       out id agree (b2s spec) cls "-" (model ++ (if spec then "" else s!" failing={failing}"))
     | _, _, _, _, _ => bad id "parse"
